@@ -284,14 +284,16 @@ PROPS['C10'] = dict(
          'escapes, keys/strings containing []{}",:\\, depth <= 7) rendered with random layouts (whitespace runs > 64, pad '
          '0..130, escaped spellings of keys). Paths (4 per text): existing paths, and wrong continuations of prefixes of '
          'existing paths: absent key, prefix/extension of a key, key of another object, index == size / size+1 / size+1000 / '
-         'INT_MAX / -1 / INT_MIN, index into object, key into array, any step into an empty container, steps below a scalar. '
+         'INT_MAX / -1 / INT_MIN, index into object, key into array, any step into an empty container, steps below a scalar, '
+         'a key equal to the raw (still escaped) spelling of a member name. '
          'Oracle: refjson.resolve on the generating value (first match); hit => kErrorNone, slice inside the input, '
          'refjson.parse(slice) == resolved value, ParseOnDemand yields it; miss => error, empty slice, ParseOnDemand has a parse '
          'error and a null document; DOM Parse+AtPointer agrees. Buffers: exact-size heap block (ASan) / page-end and '
          'page-start guard pages. evaluations counts (text,path) pairs as oracle sub-evaluations. Non-trivial: non-empty path.',
     min_evaluations=dict(quick=100000, thorough=2000000),
     required_classes=['hit:existing', 'miss:absent-key', 'miss:index==size', 'miss:index-into-empty-array', 'miss:index==-1',
-                      'miss:key-into-empty-object', 'miss:index-below-scalar', 'path-with-escaped-key', 'miss:key-of-another-object'],
+                      'miss:key-into-empty-object', 'miss:index-below-scalar', 'path-with-escaped-key', 'miss:key-of-another-object',
+                      'miss:raw-spelling-of-escaped-key'],
 )
 
 c11 = B('c11_ondemand_raw', 'c10_ondemand.cpp', 'asan', defines=['-DVF_C11'])
